@@ -117,7 +117,7 @@ coords(const struct zc_src *s, int64_t t, char *buf, size_t bsz)
 static const char*
 srcclass(const struct zc_src *s, char *buf, size_t bsz)
 {
-	snprintf(buf, bsz, "%s v%d", s->sys ? "installed" : "synthetic", s->m.version);
+	snprintf(buf, bsz, "%s v%d", s->sys ? "installed" : !strncmp(s->name, "spl:", 4) ? "synthetic-short-spell" : "synthetic", s->m.version);
 	return buf;
 }
 
@@ -512,8 +512,8 @@ run_src(struct zc_src *s)
 				locl[nl++] = m->tr[i] + m->off[m->ty[i - 1]] + d;
 			}
 		}
-		if (ex.thorough && i + 1 < m->ntr) {
-			/* the middle of the range */
+		if ((ex.thorough || !s->sys) && i + 1 < m->ntr) {
+			/* the middle of the range (synthetic files: in both tiers, a short spell has little else) */
 			int64_t mid = m->tr[i] + (m->tr[i + 1] - m->tr[i]) / 2;
 			inst[ni++] = mid;
 			locl[nl++] = mid + b;
@@ -879,9 +879,11 @@ main(int argc, char *argv[])
 	}
 
 	zc_catalogue(1, 1, ex.thorough ? 5 : 4, ex.thorough);
+	zc_catalogue_spells(ex.thorough ? 5 : 4, ex.thorough ? 3 : 2);
 	ex_meta("rule", "every regular TZif file below " ZC_ZONEINFO " (%zu found; %zu other regular files ignored; symbolic links name files visited anyway) "
 		"and %zu synthetic files generated from the model (versions 1-3; 0..4 (thorough: 0..5) transitions at 4 instant layouts with types from the offset alphabet "
-		"{-18000,0,+19800} in every arrangement, the 32-bit block of version 2/3 files being a decoy; 254/255/256/257/300/600 (thorough: also 511/512/513/1000) transitions cycling through the 3 types). "
+		"{-18000,0,+19800} in every arrangement, the 32-bit block of version 2/3 files being a decoy; 254/255/256/257/300/600 (thorough: also 511/512/513/1000) transitions cycling through the 3 types; SHORT SPELLS: 2..4 (thorough 5) transitions "
+		"3600/1800 (thorough also 7200) s apart with types from {-10800,-3600,0,+12600} in every arrangement, so that an offset is in force for less time than the jumps around it). "
 		"Per file: every listed transition -1/0/+1 s (thorough: also +-3600 s, +-86400 s and the middle of every range), last+10^9, 0, +-1, +-2^31 seams; each on a fresh handle (zif_open per call): zif_local_time(t) = t + offset in force; "
 		"zif_find_zrng(t) = adjacent table entries, offset in force, neighbouring offsets as dzone derives them; zif_utc_time(l) for both local images of every "
 		"transition -1/0/+1 s must be a member of {u: u + offset(u) = l}. Readings: instants before the first listed transition are outside (skipped); a local time "
